@@ -79,3 +79,72 @@ def while_invariant(real_fn, ordinal, modifies, max_iter):
         return inv
 
     return deco
+
+
+class ForRangeInvariant:
+    """`for i in range(<symbolic>)` by inductive invariant.  inv(i, <locals by name>, old_<x> ...) must hold for
+    i = start (obligation), is assumed for an arbitrary i in [start, stop) after havocking the modified byte arrays,
+    the real body is executed once and inv(i+1) is an obligation (that path ends there: PathEnd); the code after the
+    loop continues from inv(stop) with the modified arrays havocked.  `modifies` are expressions over the locals
+    (e.g. "self.coded_message") that evaluate to bytearray objects."""
+
+    def __init__(self, inv, modifies):
+        self.inv, self.modifies = inv, list(modifies)
+        self.params = list(inspect.signature(inv).parameters)
+
+    def _objs(self, I, env, g, fn):
+        import ast
+        return [I.eval(ast.parse(m, mode="eval").body, env, g, fn) for m in self.modifies]
+
+    def _call(self, I, env, old, i):
+        kwargs = {}
+        for p in self.params:
+            if p == "i":
+                kwargs[p] = i
+            elif p.startswith("old_") and p[4:] in old:
+                kwargs[p] = old[p[4:]]
+            else:
+                found, v = env.lookup(p)
+                if not found:
+                    raise Undecided(f"loop invariant refers to local {p!r} which does not exist (renamed?)")
+                kwargs[p] = v
+        return zbool(I.call(self.inv, [], kwargs))
+
+    def run(self, I, s, rng, env, g, fn, key):
+        from .core import PathEnd, SBytes, BV8, INT
+        e = I.e
+        objs = self._objs(I, env, g, fn)
+        old = {}
+        for m, o in zip(self.modifies, objs):
+            if not isinstance(o, SBytes):
+                raise Undecided(f"loop contract of {key}: {m} is not a symbolic bytearray")
+            old[m.split(".")[-1]] = SBytes(o.arr, o.off, o.ln, False)
+        tag = f"{key[0].split('.')[-1]}#{key[1]}"
+        e.check(self._call(I, env, old, ops.simp_int(rng.start)), f"loop-invariant-holds-on-entry[{tag}]")
+        inductive = e.branch(z3.Bool(e.newname("inductive-step")))
+        for o in objs:  # havoc
+            o.arr = z3.Array(e.newname("hv"), INT, BV8)
+            o.off = z3.IntVal(0)
+            o.ln = z3.Int(e.newname("hvlen"))
+            e.assume(o.ln >= 0)
+        if inductive:
+            i = z3.Int(e.newname("i"))
+            e.assume(z3.And(rng.start <= i, i < rng.stop))
+            e.assume(self._call(I, env, old, SInt(i)))
+            I.assign(s.target, SInt(i), env, g, fn)
+            I.exec_block(s.body, env, g, fn)
+            e.check(self._call(I, env, old, SInt(i + 1)), f"loop-invariant-preserved[{tag}]")
+            raise PathEnd()
+        last = z3.If(rng.stop > rng.start, rng.stop, rng.start)
+        e.assume(self._call(I, env, old, ops.simp_int(last)))
+        I.exec_block(s.orelse, env, g, fn)
+
+
+def for_invariant(real_fn, ordinal, modifies):
+
+    def deco(inv):
+        f = getattr(real_fn, "__func__", real_fn)
+        registry.LOOPSPECS[(f"{f.__module__}.{f.__qualname__}", ordinal)] = ForRangeInvariant(inv, modifies)
+        return inv
+
+    return deco
